@@ -22,6 +22,8 @@ pub enum Rcpt {
     SelfAddr,
     Proto(u8),
     Native(u8),
+    /// a native address written in the (legal) all-upper-case bech32 form
+    NativeUpper(u8),
     NativeStaker,
     Garbage(u8),
 }
@@ -82,7 +84,15 @@ pub enum CfgSection {
     BatchPeriod(u64),
     Monitors(Vec<u8>),
     /// native section: unbonding period, validators subset, new staker/collector index (quiescent only)
-    Native { unbonding: u64, validators: Vec<u8>, staker: u8, collector: u8 },
+    Native {
+        unbonding: u64,
+        validators: Vec<u8>,
+        staker: u8,
+        collector: u8,
+        /// configure staker and collector in upper-case bech32 (accepted by validation)
+        #[serde(default)]
+        upper: bool,
+    },
     /// protocol section: min stake, oracle present?, channel number (quiescent only)
     Protocol {
         #[serde(with = "ustr")]
